@@ -100,6 +100,15 @@ PROPS = {
         "mc": L0_QUICK,
         "drivers": [drv("cost", "release", shards={"quick": 1, "thorough": 1})],
     },
+    "C14": {
+        "mc": L0_QUICK,
+        "drivers": [drv("failures", "debug"), drv("failures", "release")]
+                   + [drv(d, "release", shards={"quick": 2, "thorough": 6}, env={"HARNESS_SAMPLE": "8"}) for d in
+                      ("addsub", "mul", "div", "bits", "text", "conv", "modpow", "roots", "pow", "gcd", "forms", "bytes", "history", "sign")]
+                   + [drv(d, "debug", tiers=T, shards={"thorough": 6}, env={"HARNESS_SAMPLE": "3"}) for d in
+                      ("addsub", "mul", "div", "bits", "text", "conv", "modpow", "roots", "pow", "gcd", "forms", "bytes", "history", "sign")],
+        "owns_reasons": ("unexpected_panic", "missing_failure", "unexpected_none", "crash"),
+    },
     "C10": {
         "mc": L0_QUICK + L0_THOROUGH,
         "drivers": [drv("forms", "debug"), drv("forms", "release", tiers=T)],
